@@ -66,12 +66,44 @@ def batches(draw):
     # (container-type faults first: they survive most serialisations)
     for j in range(1, k):
         what = draw(st.integers(0, 11))
-        if what > 5:
+        if what > 6:
             continue
         i = draw(st.integers(0, j - 1))
         if entries[i]["kind"] != "stopping":
             continue
-        if what == 5:
+        if what == 6:
+            # a probability sibling (a sweep p = 0, ... over one game): the EARLIER entry becomes a variant of the game
+            # in which one chance state lists its transitions into live states with probability 0 (its whole mass on
+            # its dead successors, so it - and whatever reaches the goal only through it - is dead there); the later
+            # entry is the game itself, with the same graph, owners, rewards and final states
+            if "twin_of" in entries[i] or any(e.get("twin_of") == i for e in entries):
+                continue
+            sib = copy.deepcopy(entries[i]["game"])
+            first = copy.deepcopy(sib)
+            try:
+                back = set(GameFacts(sib).back)
+            except OracleError:
+                continue
+            options = []
+            for s_, lst in enumerate(first["transition_list"]):
+                if first["players"][s_] == PR and isinstance(lst, list) and s_ in back:
+                    dead = [ix for ix, (p_, t_) in enumerate(lst) if t_ not in back and p_ != 0]
+                    live = [ix for ix, (p_, t_) in enumerate(lst) if t_ in back and p_ != 0]
+                    if dead and live:
+                        options.append((s_, dead, live))
+            if not options:
+                continue
+            s_, dead, live = draw(st.sampled_from(options))
+            lst = list(first["transition_list"][s_])
+            lst[dead[0]] = (lst[dead[0]][0] + sum(lst[ix][0] for ix in live), lst[dead[0]][1])
+            for ix in live:
+                lst[ix] = (0.0, lst[ix][1])
+            first["transition_list"][s_] = lst
+            if not exact.is_stopping(first):
+                continue
+            entries[i] = dict(kind="stopping", game=first)
+            entries[j] = dict(kind="stopping", game=sib, twin_of=i, probability_sibling=True)
+        elif what == 5:
             # a number-type twin: the same game with its rewards written as floats (1 == 1.0, 10**25 == 1e25 ...):
             # equal element by element under ==, but a different description with differently typed results
             sib = copy.deepcopy(entries[i]["game"])
@@ -219,6 +251,8 @@ def check_case(case):
         v.cls("has_pruning_game")
     if any("twin_of" in e for e in entries):
         v.cls("has_twin_of_another_game")
+        if any(e.get("probability_sibling") for e in entries):
+            v.cls("has_probability_sibling_after_its_zero_variant")
     v.cls(f"games={k}")
     if any(x is not None for x in case.get("own_prune_key") or []):
         v.cls("description_carries_prune_states_key")
